@@ -23,6 +23,8 @@ from .. import ref, gen, bridge, core
 from ..mon.hooks import Hooks
 
 PROP = "C17"
+LEVEL_TEXT = 'Ages/depths/lineage counts/statistics returned by the hooked functions are compared with formula oracles on generated ultrametric trees (dyadic heights: exact arithmetic); the ultrametricity check is probed with a single perturbation on both sides of each precision; forcing options against max/min recursion.'
+LEVEL_NOTE = 'Trusted: the formulas transcribed from the cited papers; single-perturbation reading of the per-node criterion.'
 LEVEL = "exploration"
 TECHNIQUE = "runtime monitoring: hooked age/statistic functions compared with formula oracles on generated ultrametric and perturbed trees"
 RULE = ("tree (all binary+polytomous shapes n<=5 via random generation, random up to 200 leaves, dyadic or float ultrametric heights) x "
